@@ -398,6 +398,18 @@ def _maybe_identity(target_text, v):
                 return False  # T = T[1:] really shrinks
             cur = cur.value
             continue
+        if isinstance(cur, ast.Subscript) and isinstance(cur.slice, ast.Constant):
+            cur = cur.value  # h(T)[0]: an element of what h returns
+            continue
+        if isinstance(cur, ast.Call) and not isinstance(cur.func, ast.Attribute) or (
+            isinstance(cur, ast.Call) and isinstance(cur.func, ast.Attribute) and isinstance(cur.func.value, (ast.Name, ast.Attribute)) and norm_text(cur.func.value) != target_text
+        ):
+            # T = h(T, ...): a function handed T may hand it back unchanged (extract_default on a doc without a default,
+            # a normaliser on normalised text); nothing in the loop says it cannot
+            if any(norm_text(a) == target_text for a in list(cur.args) + [k.value for k in cur.keywords]):
+                seen_self = True
+                break
+            return False
         return False
     return seen_self
 
